@@ -5,9 +5,13 @@
   Status: full for the modelled part.  On the pinned tree the refund of a forward sent back over its
   arrival channel (receive MINTED, forward BURNT: A→B→A) minted phantom vouchers into the channel's
   escrow account; repaired by /repo commit f970a92, the model mirrors the repaired code, and the old
-  witness is kept as `bounce_witness_now_restored`.  Retries / timeouts are monitor-checked only.
+  witness is kept as `bounce_witness_now_restored`.  The timeout path (in-flight record,
+  `RetriesRemaining`, re-send, give-up refund) is modelled and proved too: `retry_conserves`,
+  `failed_retry_reverts` (the liveness caveat), `timeout_exhausted_refunds`, `override_receiver_empty`,
+  `all_or_nothing_with_timeouts`.
 -/
 import IbcVerif.Model.Pfm
+import IbcVerif.Lemmas.Pfm
 namespace IbcVerif.C43
 open IbcVerif IbcVerif.Xfer IbcVerif.Pfm
 
@@ -38,15 +42,13 @@ theorem mint_and_burn_is_bounce (d : Denom) (p1 c1 p2 c2 : Str)
 /-- **Refund restores the intermediate chain** (voucher supply, both escrow accounts, total escrow) in
     EVERY combination of what the receive did (mint / unescrow) and what the forward did (escrow /
     burn), for every amount and every prior state. -/
-theorem refund_restores (h : FHop) (a : Int) (m : Mid) : bounceBack h a m = m := by
-  obtain ⟨r, f⟩ := h
-  obtain ⟨v, er, ef, te⟩ := m
-  cases r <;> cases f <;> simp [bounceBack, refund, refundCoded, fwdEff, recvEff] <;> omega
+theorem refund_restores (h : FHop) (a : Int) (m : Mid) : bounceBack h a m = m :=
+  refund_fwd_recv h a m
 
 /-- Regression of the finding fixed by /repo f970a92: receive mints 100, the forward back over the same
     channel burns 100, the forward fails — the unrepaired refund left 100 phantom vouchers in the escrow
-    account and in the total-escrow entry (⟨100, 100, 0, 100⟩); now the chain is exactly as before. -/
-theorem bounce_witness_now_restored : bounceBack ⟨.mint, .burn⟩ 100 ⟨0, 0, 0, 0⟩ = ⟨0, 0, 0, 0⟩ := by
+    account and in the total-escrow entry (v = 100, er = 100, te = 100); now the chain is exactly as before. -/
+theorem bounce_witness_now_restored : bounceBack ⟨.mint, .burn⟩ 100 ⟨0, 0, 0, 0, 0⟩ = ⟨0, 0, 0, 0, 0⟩ := by
   decide
 
 /-- **All-or-nothing over routes of any length** (induction on the route): if the route fails somewhere
@@ -74,8 +76,130 @@ theorem all_or_nothing (route : List (FHop × Mid)) (a : Int) :
 
 /-- non-vacuity: A→B→C with a token native to A (B mints then escrows) and with a voucher returning to
     its origin C (B unescrows then burns): both restored after a failed forward. -/
-example : bounceBack ⟨.mint, .escrow⟩ 70 ⟨5, 10, 20, 30⟩ = ⟨5, 10, 20, 30⟩ ∧
-    bounceBack ⟨.unescrow, .burn⟩ 70 ⟨500, 100, 20, 300⟩ = ⟨500, 100, 20, 300⟩ ∧
-    bounceBack ⟨.unescrow, .escrow⟩ 70 ⟨500, 100, 20, 300⟩ = ⟨500, 100, 20, 300⟩ := by decide
+example : bounceBack ⟨.mint, .escrow⟩ 70 ⟨5, 10, 20, 30, 0⟩ = ⟨5, 10, 20, 30, 0⟩ ∧
+    bounceBack ⟨.unescrow, .burn⟩ 70 ⟨500, 100, 20, 300, 7⟩ = ⟨500, 100, 20, 300, 7⟩ ∧
+    bounceBack ⟨.unescrow, .escrow⟩ 70 ⟨500, 100, 20, 300, 0⟩ = ⟨500, 100, 20, 300, 0⟩ := by decide
+
+
+/-! ### timeouts and retries -/
+
+/-- **A retry conserves.**  A timeout of the in-flight forward while retries remain (and the re-send
+    succeeds) changes NO balance, supply or total-escrow entry on the intermediate chain: ICS-20's
+    timeout refund to the override receiver and the new escrow/burn cancel exactly.  All that changes is
+    the in-flight record: moved to the new sequence with one retry fewer. -/
+theorem retry_conserves (h : FHop) (a : Int) (n : Node) (r : InFlight)
+    (hr : n.flight = some r) (hpos : 0 < r.retriesRemaining) :
+    onTimeout h a true r.seq n =
+      ({ m := n.m, flight := some ⟨n.nextSeq, r.retriesRemaining - 1⟩, nextSeq := n.nextSeq + 1 }, .retried) := by
+  have : ¬ r.retriesRemaining ≤ 0 := by omega
+  simp [onTimeout, hr, this, forwardOk, fwd_ics20Refund]
+
+/-- **Liveness caveat, stated explicitly.**  If the re-send of a retry fails, `OnTimeoutPacket` returns the
+    error, the timeout transaction reverts: nothing changes and the packet is still in flight (it can be
+    timed out again later).  No funds move; the route merely does not terminate at this point. -/
+theorem failed_retry_reverts (h : FHop) (a : Int) (n : Node) (r : InFlight)
+    (hr : n.flight = some r) (hpos : 0 < r.retriesRemaining) :
+    onTimeout h a false r.seq n = (n, .reverted) := by
+  have : ¬ r.retriesRemaining ≤ 0 := by omega
+  simp [onTimeout, hr, this]
+
+/-- **Exhausted retries refund like an error acknowledgement.**  (1) The give-up step is, on the chain
+    state, literally the error-ack step (same refund function, record removed).  (2) Starting from a
+    fresh receive-and-forward with `retries` retries, `retries + 1` timeouts (every re-send succeeding)
+    end with the record gone and the chain exactly as before the receive. -/
+theorem timeout_exhausted_refunds (h : FHop) (a : Int) :
+    (∀ (n : Node) (r : InFlight) (ok : Bool), n.flight = some r → r.retriesRemaining ≤ 0 →
+      onTimeout h a ok r.seq n = (onErrorAck h a r.seq n, .gaveUp)) ∧
+    (∀ (n0 : Node) (retries : Nat), n0.flight = none →
+      let n := afterTimeouts h a (receiveAndForward h a retries true n0) (List.replicate (retries + 1) true)
+      n.flight = none ∧ n.m = n0.m) := by
+  constructor
+  · intro n r ok hr hz
+    simp [onTimeout, onErrorAck, hr, hz]
+  · intro n0 retries _
+    have := exhaust h a retries (receiveAndForward h a retries true n0) ⟨n0.nextSeq, retries⟩
+      (by simp [receiveAndForward, forwardOk]) rfl
+    refine ⟨this.1, ?_⟩
+    rw [this.2]
+    simp only [receiveAndForward, forwardOk, if_true]
+    exact refund_fwd_recv h a n0.m
+
+/-- **The intermediate receive account never keeps funds.**  The override receiver's balance of the
+    forwarded coin is back at its prior value at the end of the receive step (forwarded, or the whole
+    receive discarded), after every timeout step (retry, failed retry, give-up) and after the
+    error-acknowledgement refund. -/
+theorem override_receiver_empty (h : FHop) (a : Int) (n : Node) :
+    (∀ retries ok, (receiveAndForward h a retries ok n).m.ov = n.m.ov) ∧
+    (∀ ok seq, (onTimeout h a ok seq n).1.m.ov = n.m.ov) ∧
+    (∀ seq, (onErrorAck h a seq n).m.ov = n.m.ov) := by
+  refine ⟨?_, ?_, ?_⟩
+  · intro retries ok
+    cases ok
+    · simp [receiveAndForward]
+    · simp only [receiveAndForward, forwardOk, if_true]
+      exact fwd_recv_ov h a n.m
+  · intro ok seq
+    unfold onTimeout
+    cases hr : n.flight with
+    | none => rfl
+    | some r =>
+      simp only []
+      by_cases hs : r.seq = seq
+      · simp only [hs, if_true]
+        by_cases hz : r.retriesRemaining ≤ 0
+        · simp only [hz, if_true]; exact refund_ov _ _ _ _
+        · simp only [hz, if_false]
+          cases ok
+          · rfl
+          · simp only [if_true, forwardOk, fwd_ics20Refund]
+      · simp [hs]
+  · intro seq
+    unfold onErrorAck
+    cases hr : n.flight with
+    | none => rfl
+    | some r =>
+      simp only []
+      by_cases hs : r.seq = seq
+      · simp only [hs, if_true]; exact refund_ov _ _ _ _
+      · simp [hs]
+
+/-- **All-or-nothing with any number of timeouts per hop** (induction on the route; per hop induction on
+    the run of timeouts, i.e. on the remaining retries).  Every intermediate chain of a route receives
+    and forwards (with its own retry budget), then sees ANY sequence of timeouts of its in-flight packet —
+    re-sends succeeding or failing in any pattern, giving up when the retries are exhausted — and finally,
+    the route failing downstream, the error acknowledgement if it is still in flight.  At the end every
+    intermediate chain is exactly where it started and holds no in-flight record.  While a hop has not
+    given up its state is "funds forwarded, record present" — never anything in between. -/
+theorem all_or_nothing_with_timeouts (a : Int) (route : List (FHop × Node × Nat × List Bool))
+    (hfresh : ∀ x ∈ route, x.2.1.flight = none) :
+    (route.map fun x => (settleFailed x.1 a (afterTimeouts x.1 a (receiveAndForward x.1 a x.2.2.1 true x.2.1) x.2.2.2)).m)
+        = route.map (·.2.1.m) ∧
+    (∀ x ∈ route, (settleFailed x.1 a (afterTimeouts x.1 a (receiveAndForward x.1 a x.2.2.1 true x.2.1) x.2.2.2)).flight = none) ∧
+    (∀ x ∈ route, Tracks x.1 a x.2.1.m (afterTimeouts x.1 a (receiveAndForward x.1 a x.2.2.1 true x.2.1) x.2.2.2)) := by
+  have key : ∀ x ∈ route, Tracks x.1 a x.2.1.m (afterTimeouts x.1 a (receiveAndForward x.1 a x.2.2.1 true x.2.1) x.2.2.2) := by
+    intro x _
+    apply afterTimeouts_tracks
+    left
+    simp [receiveAndForward, forwardOk]
+  refine ⟨?_, ?_, key⟩
+  · induction route with
+    | nil => rfl
+    | cons x t ih =>
+      simp only [List.map_cons, List.cons.injEq]
+      refine ⟨(settleFailed_of_tracks x.1 a x.2.1.m _ (key x (by simp))).1, ?_⟩
+      exact ih (fun y hy => hfresh y (by simp [hy])) (fun y hy => key y (by simp [hy]))
+  · intro x hx
+    exact (settleFailed_of_tracks x.1 a x.2.1.m _ (key x hx)).2
+
+/-- non-vacuity: mint/escrow hop, 2 retries: timeout (re-sent), timeout with a failing re-send
+    (reverted, still in flight), timeout (re-sent), timeout (re-sent … no: retries now 0 → give up). -/
+example :
+    let n0 : Node := ⟨⟨5, 10, 20, 30, 0⟩, none, 7⟩
+    let n1 := receiveAndForward ⟨.mint, .escrow⟩ 70 2 true n0
+    n1 = ⟨⟨75, 10, 90, 100, 0⟩, some ⟨7, 2⟩, 8⟩ ∧
+    (onTimeout ⟨.mint, .escrow⟩ 70 true 7 n1) = (⟨⟨75, 10, 90, 100, 0⟩, some ⟨8, 1⟩, 9⟩, .retried) ∧
+    afterTimeouts ⟨.mint, .escrow⟩ 70 n1 [true, false, true] = ⟨⟨75, 10, 90, 100, 0⟩, some ⟨9, 0⟩, 10⟩ ∧
+    afterTimeouts ⟨.mint, .escrow⟩ 70 n1 [true, false, true, true] = ⟨⟨5, 10, 20, 30, 0⟩, none, 10⟩ := by
+  decide
 
 end IbcVerif.C43
